@@ -27,5 +27,7 @@ def check(run):
     common.gen_structs(run, fams1=(), fams2=("lease", "offsig", "ls2", "meta", "els"))
     run.gen("Gen_Build", consts={"Fam": "lease"}, tag="Gen_Build_lease")
     run.gen("Gen_C06")      # signing constructors: decoded content (C02), published date (C15)
+    # the date constructors and accessors over the whole millisecond range (seconds to milliseconds and back, exact, never wrapped)
+    run.gen("Gen_C12", consts={"Part": "dates"}, tag="Gen_C12_dates")
     run.replay_and_judge()
     return vlib.finish(run, "model_checking", RULE, ASSUME)
